@@ -409,6 +409,18 @@ def targeted(rng, paths):
         return osc.enc_msg(rng.choice(MALFORMED_PATTERNS), *rand_args(rng)), k
     if k == 'deep':
         return deep_bundle(rng, rng.choice([30, 100, 300, 600, 1500, 3000]), paths), k
+    if k == 'optional-tags':
+        # valid OSC 1.0 with optional ("non-standard") argument types
+        a = rng.choice(paths)
+        tags, body = rng.choice([
+            (',iNi', _i32(1) + _i32(2)), (',N', b''), (',hi', struct.pack('>qi', 5, 7)),
+            (',Si', osc.pad_str('sym') + _i32(9)), (',Ii', _i32(4)),
+            (',ihs', _i32(3) + struct.pack('>q', -2) + osc.pad_str('x')),
+            (',dN', struct.pack('>d', 0.5)), (',sNf', osc.pad_str('a') + struct.pack('>f', 1.5))])
+        m = osc.pad_str(a) + osc.pad_str(tags) + body
+        if rng.random() < 0.4:
+            return osc.enc_bundle(1, m1, m), k
+        return m, k
     if k == 'no-typetags':
         return osc.pad_str(rng.choice(paths)), k
     raise AssertionError(k)
@@ -422,7 +434,8 @@ TARGETS = ['empty', 'garbage', 'no-slash', 'addr-unterminated', 'bundle-short',
            'typetag-no-comma', 'typetag-unknown', 'typetag-unbalanced',
            'arg-truncated', 'string-unterminated', 'blob-size-negative',
            'blob-size-oversized', 'bad-utf8-address', 'bad-utf8-string',
-           'trailing-bytes', 'bad-pattern', 'deep', 'no-typetags']
+           'trailing-bytes', 'bad-pattern', 'deep', 'no-typetags', 'optional-tags',
+           'optional-tags']
 
 
 def mutate(rng, d):
